@@ -340,6 +340,10 @@ class C09(Prop):
             (r"if\s*\(\s*duration\s*<\s*0\s*\)", back, "update_load_av:clamp"),
             (r"ret\s*=\s*safe_apply_master_ob\s*\(\s*APPLY_CONNECT", back, "mudlib_connect:connect under its own recovery point"),
             (r"safe_apply\s*\(\s*APPLY_LOGON,\s*ob", back, "mudlib_logon:logon under its own recovery point"),
+            (r'add_message \(ip->ob, "[^"]*"\);\s*\n\s*if \(user_ob->interactive != ip\)\s*\n\s*return \(size_t\) -1;', comm,
+             "copy_chars:record re-validated after the echo"),
+            (r"ip->iflags \|= CMD_IN_BUF;\s*\}\s*(?:/\*[\s\S]*?\*/\s*)?if \(ip->snoop_by && !\(ip->iflags & NOECHO\)\)\s*\n\s*receive_snoop \(buf, ip->snoop_by->ob\);\s*\n\s*break;",
+             comm, "get_user_data:snoop forwarding last"),
             (r"for\s*\(idx = 0; idx < g_num_io_events; idx\+\+\)\s*\n\s*if\s*\(g_io_events\[idx\]\.context == ip\)\s*\n\s*g_io_events\[idx\]\.context = 0;[^}]*?FREE \(ip\);",
              comm, "remove_interactive:pending events of the freed record cleared"),
         ]
@@ -506,6 +510,19 @@ class C09(Prop):
             "mode console", "script u1 cmd:boom err", "script u3 cmd:boom err", "step conn:c1", "step conn:c2",
             "step cin:%s send:c1:a/b/ send:c2:%s" % ("boom/" * 8, "boom/" * 8), "step send:c1:c/", "step idle", "step idle",
             "step idle", "step idle", "step idle", "step idle"])
+        # snoop: what the snooped user types is shown to the snooper (receive_snoop(), unprotected apply inside
+        # get_user_data); the snooper destructs / disconnects the snooped user or itself, raises, re-targets; loops refused
+        mk("snoop-input-destructs-snoopee", ["mode net", "script u1 cmd:spy snoop:u2", "script u1 snoop dest:u2",
+                                             "step conn:c1", "step conn:c2", "step send:c1:spy/", "step send:c2:a/b/",
+                                             "step send:c1:x1/"])
+        mk("snoop-input-raises", ["mode net", "script u1 cmd:spy snoop:u2", "script u1 snoop err", "step conn:c1",
+                                  "step conn:c2", "step send:c1:spy/", "step send:c2:a/", "step idle", "step idle",
+                                  "step send:c1:x1/"])
+        mk("snoop-links", ["mode net", "script u1 cmd:spy snoop:u2", "script u2 cmd:spy snoop:u3", "script u3 cmd:spy snoop:u1",
+                           "script u1 cmd:kick snoop:u3", "script u1 snoop w:saw", "script u2 snoop dest:me",
+                           "script u3 snoop cerr;dest:u1", "step conn:c1", "step conn:c2", "step conn:c3",
+                           "step send:c1:spy/ send:c2:spy/", "step send:c3:spy/a/", "step send:c2:b/ send:c3:c/",
+                           "step send:c1:kick/", "step send:c3:d/pa", "step send:c3:rt/ close:c1", "step send:c2:e/ send:c3:f/"])
         mk("connect-rejected", ["mode net", "script k1 connect rej", "step conn:c1", "step conn:c2", "step send:c2:a/"])
         return B
 
@@ -547,7 +564,7 @@ class C09(Prop):
         ops = []
         for _ in range(rng.weighted([(1, 6), (2, 3), (3, 1)])):
             k = rng.weighted([("ok", 4), ("err", 5 if allow_err else 0), ("cerr", 2), ("dest", 3), ("co", 3), ("hb", 2),
-                              ("w", 2), ("meh", 1), ("it", 3 if allow_it else 0)])
+                              ("w", 2), ("meh", 1), ("it", 3 if allow_it else 0), ("snoop", 2 if me.startswith("u") else 0)])
             if k == "dest":
                 t = rng.weighted([("me", 3), ("u", 3), ("o", 2)])
                 if t == "u":
@@ -568,6 +585,8 @@ class C09(Prop):
                 ops.append("meh:" + rng.choice(["ok", "raise", "recurse"]))
             elif k == "it":
                 ops.append("it:" + rng.choice(["s", "t"]))
+            elif k == "snoop":
+                ops.append("snoop:u%d" % rng.range(1, max(1, nusers)))
             else:
                 ops.append(k)
             if k == "err":
@@ -598,7 +617,7 @@ class C09(Prop):
                         ops = ";".join("ok" if o in ("dest:me", "dest:o%d" % i) else o for o in ops.split(";"))
                     lines.append("script o%d %s %s" % (i, kind, ops))
         for u in range(1, nusers + 2):
-            for kind in ["logon", "input", "netdead", "hb", "co:p", "co:q", "it:s", "it:t", "prompt"] + ["cmd:" + v for v in verbs]:
+            for kind in ["logon", "input", "netdead", "hb", "co:p", "co:q", "it:s", "it:t", "prompt", "snoop"] + ["cmd:" + v for v in verbs]:
                 if rng.chance(density // 2 if kind in ("logon", "input", "prompt") else density, 100):
                     # input_to() acts on command_giver: that is the user itself in logon, process_input, a command and
                     # an input_to callback (not in net_dead / call_out / heart_beat, where it is inherited)
